@@ -460,6 +460,8 @@ impl<P: ProcessRun> Run<'_, P> {
                 scope.spawn(|| {
                     let mut metrics = metrics.fork();
                     while let Some(task) = tasks.pop() {
+                        #[cfg(routinator_verif)]
+                        crate::verif::point("engine.task");
                         if self.process_task(
                             task, &tasks, &mut metrics,
                         ).is_err() {
@@ -603,6 +605,8 @@ impl<P: ProcessRun> Run<'_, P> {
         tasks: &SegQueue<Task<P::PubPoint>>,
         metrics: &mut RunMetrics,
     ) -> Result<(), Failed> {
+        #[cfg(routinator_verif)]
+        crate::verif::point("engine.ca");
         let more_tasks = PubPoint::new(
             self, &task.cert, task.processor, task.repository_index,
         ).and_then(|point| {
@@ -801,6 +805,8 @@ impl<'a, P: ProcessRun> PubPoint<'a, P> {
         // adds randomness to visiting the repositories, reducing peak load.
         let mut items_random: Vec<_> = collected.content.iter().collect();
         items_random.shuffle(&mut rand::rng());
+        #[cfg(routinator_verif)]
+        crate::verif::permute("engine.manifest", &mut items_random);
         let mut items = items_random.into_iter();
 
         let mut point_ok = true;
